@@ -1,5 +1,6 @@
 # C18 - admin commands touch seed and PIN only under their preconditions
 import os
+import zlib
 import json
 import random
 import shutil
@@ -226,7 +227,17 @@ def run_cell(acc, cell, tmpdir, seed):
         acc.violation(mech, d, case)
 
     with UrandomLog() as ur, AdminEnv(dev, plat) as ae:
-        ok, so, exc = ae.run(fn, opts, stdin=stdin, getpass_answers=getpass_answers)
+        # every third cell goes through the tool's own command line (argument parser,
+        # defaults, dispatch, exit codes) instead of calling the operation directly
+        via_cli = (zlib.crc32(repr(cell).encode()) % 3 == 0) and \
+            not any(isinstance(v, str) and v.startswith("-") for v in vars(opts).values())
+        if via_cli:
+            acc.count("cells_through_the_command_line")
+            ok, so, exc = ae.run_cli({"onboard": "onboard", "unlock": "unlock",
+                                      "changepin": "changepin", "pubkeys": "pubkeys"}[cmd],
+                                     opts, stdin=stdin, getpass_answers=getpass_answers)
+        else:
+            ok, so, exc = ae.run(fn, opts, stdin=stdin, getpass_answers=getpass_answers)
         cmds = apdu_cmds(ae.bus)
     codes = [a[1] for a in cmds]
     boot = (mode == "boot")
